@@ -7,6 +7,7 @@ M: MC_Sdk (the wire formats and the reference de-serializers, model-checked: bij
 from __future__ import annotations
 
 import collections
+import concurrent.futures
 import json
 import os
 import re
@@ -75,7 +76,9 @@ def main() -> int:
     ck = core.Check("C10", "model_checking")
     suffix = "" if ck.quick else "_thorough"
     # M: design level
-    mres = ck.model_check("MC_Sdk", "MC_Sdk%s.cfg" % suffix, "wire formats: bijection on the image, strict => lenient, typed results, promises of the mutation actions", workers=min(16, sdk_tlc.MAX_PAR * 2), timeout=1500)
+    # M: design level (runs beside G and R: it needs nothing from them)
+    pool = concurrent.futures.ThreadPoolExecutor(max_workers=2)
+    m_future = pool.submit(ck.model_check, "MC_Sdk", "MC_Sdk%s.cfg" % suffix, "wire formats: bijection on the image, strict => lenient, typed results, promises of the mutation actions", workers=sdk_tlc.MAX_PAR, timeout=3000)
     # G
     nparts = 4 if ck.quick else 8
     gen = sdk_tlc.generate(ck, "SdkGen", "SdkGen%s.cfg" % suffix, DEPS, ["models", "instances", "mutants"], nparts, "G: models x instances x mutated documents")
@@ -103,8 +106,11 @@ def main() -> int:
     enums_by_mi = {e["mi"]: {en["name"]["src"]: {l["name"]["src"]: l["val"] for l in en["lits"]} for en in e["raw"]["enums"]} for e in models}
     # V
     nsl = sdk_tlc.MAX_PAR
-    v_rt, _ = sdk_tlc.validate(ck, "SdkTrace", "SdkTrace.cfg", rt, "V: serialized form and round trip of every instance", nsl)
-    v_mut, printed = sdk_tlc.validate(ck, "SdkMutTrace", "SdkMutTrace.cfg", mut, "V: outcome on every mutated document vs the reference verdict", nsl)
+    mres = m_future.result()  # a violated design-level invariant raises MachineryFailure here
+    rt_future = pool.submit(sdk_tlc.validate, ck, "SdkTrace", "SdkTrace.cfg", rt, "V: serialized form and round trip of every instance", max(1, nsl // 2))
+    v_mut, printed = sdk_tlc.validate(ck, "SdkMutTrace", "SdkMutTrace.cfg", mut, "V: outcome on every mutated document vs the reference verdict", max(1, nsl - nsl // 2))
+    v_rt, _ = rt_future.result()
+    pool.shutdown()
     verdicts: Dict[int, str] = {}
     for line in printed:
         kind, idx, rest = line.split(" ", 2)
